@@ -365,7 +365,7 @@ def _exec_proc(case, ctx):
             stdin = case["input"].encode()
         else:
             # the same relative name in both working directories
-            name = "in-%d.cnf" % os.getpid()
+            name = "in.cnf"          # the scratch directory is per process
             inputs[name] = case["input"]
             argv = ["-i", name] + argv
     written = []
